@@ -46,6 +46,10 @@ pub enum Frag {
     FallThrough,
     /// write LCDC (any value, the LCD-enable bit included), scroll and window registers
     LcdCfg(u8, u8, u8),
+    /// write the MBC1 mode register and the upper bank bits (from bank-0 code)
+    MbcMode(u8, u8),
+    /// stack-pointer arithmetic: ADD SP,-n; LD HL,SP+e; LD (nn),SP; LD SP,HL; ADD SP,+n
+    SpOps(u8, u16),
 }
 
 #[derive(Clone, Debug, Serialize, Deserialize)]
@@ -228,7 +232,8 @@ const DMA_ROUTINE: u16 = 0xff80;
 
 pub fn assemble(p: &ProgSpec) -> (RomImage, ProgInfo) {
     let table = alu_table();
-    let mut rom = RomImage::new(0x03, 0x02, 0x03, 0x00);
+    // MBC1 + RAM + battery, 64 ROM banks (upper bank bits and the mode register matter), 32 KiB RAM
+    let mut rom = RomImage::new(0x03, 0x05, 0x03, 0x00);
     let mut info = ProgInfo::default();
     let put = |rom: &mut RomImage, at: usize, bytes: &[u8]| {
         rom.bytes[at..at + bytes.len()].copy_from_slice(bytes);
@@ -499,10 +504,16 @@ pub fn assemble(p: &ProgSpec) -> (RomImage, ProgInfo) {
             Frag::FarCall(bank, slot) => {
                 info.uses_far_call = true;
                 let bank = 1 + (*bank as usize % (rom.banks() - 1));
-                a.ld_a(bank as u8);
+                a.ld_a((bank >> 5) as u8);
+                a.b(0xea);
+                a.w(0x4000 + (*slot as u16 & 0x1f) * 0x80);
+                a.ld_a((bank & 0x1f) as u8);
                 a.b(0xea);
                 a.w(0x2000 + (*slot as u16 & 0x1f) * 0x100);
                 a.call(0x4000 + (*slot as u16 % 8) * 0x40);
+                a.ld_a(0);
+                a.b(0xea);
+                a.w(0x5fff);
                 a.ld_a(1);
                 a.b(0xea);
                 a.w(0x2100);
@@ -618,6 +629,33 @@ pub fn assemble(p: &ProgSpec) -> (RomImage, ProgInfo) {
                 a.ld_a(*a2);
                 a.ldh_a(0x4a + (*a1 & 1));
             }
+            Frag::MbcMode(mode, upper) => {
+                info.uses_far_call = true;
+                // upper bits first, the mode register last: the mapped bank changes with the last write
+                a.ld_a(*upper & 3);
+                a.b(0xea);
+                a.w(0x4000 + (*mode as u16) * 0x20);
+                if *mode & 4 != 0 {
+                    // the two register writes in different blocks
+                    a.bs(&[0x18, 0x00]);
+                }
+                a.ld_a(*mode & 1);
+                a.b(0xea);
+                a.w(0x6000 + (*upper as u16) * 0x20);
+                if *mode & 2 != 0 {
+                    // and run into the switchable bank right away
+                    a.call(0x3ff8);
+                }
+            }
+            Frag::SpOps(n, sel) => {
+                let n = 2 + 2 * (*n % 8);
+                a.bs(&[0xe8, (n as i8).wrapping_neg() as u8]);
+                a.bs(&[0xf8, n / 2]);
+                a.b(0x08);
+                a.w(pointer(*sel));
+                a.bs(&[0xf8, 0x00, 0xf9]);
+                a.bs(&[0xe8, n]);
+            }
             Frag::FallThrough => {
                 info.uses_far_call = true;
                 a.call(0x3ff8);
@@ -659,6 +697,8 @@ pub fn frag_strategy() -> impl Strategy<Value = Frag> {
         1 => any::<bool>().prop_map(Frag::Ime),
         1 => any::<u8>().prop_map(Frag::Stop),
         1 => Just(Frag::FallThrough),
+        1 => (any::<u8>(), any::<u8>()).prop_map(|(m, u)| Frag::MbcMode(m, u)),
+        1 => (any::<u8>(), any::<u16>()).prop_map(|(n, s)| Frag::SpOps(n, s)),
         1 => (prop_oneof![any::<u8>(), Just(0x11u8), Just(0x91u8), Just(0x00u8)], any::<u8>(), any::<u8>()).prop_map(|(l, a, b)| Frag::LcdCfg(l, a, b)),
     ]
 }
